@@ -143,7 +143,7 @@ pub fn run(ctx: &mut Ctx, replay: Option<&Value>) {
         }
         return;
     }
-    let n = ctx.cases.unwrap_or(if ctx.tier_thorough { 30_000 } else { 1_500 });
+    let n = ctx.count(4_000, 30_000);
     for i in 0..n {
         let mut rng = Rng::fork(ctx.seed, i);
         let case = gen_own_case(&mut rng, ctx.tier_thorough, i, false, 20);
